@@ -5,19 +5,23 @@ import os
 HERE = os.path.dirname(os.path.abspath(__file__))
 VERIF = os.path.normpath(os.path.join(HERE, ".."))
 
-CHECKS = {
-    "C05": dict(
-        text=("Lean theorems query_exact / query_tree_exact / empty_query_ok hold for every array state accepted by the "
-              "decidable wfCheck (proved sound), history_leaves for every insertion history on the tree layer; the "
-              "array model of aabb_tree.py is compared exactly (full arrays after every op) with the implementation and "
-              "wfCheck is executed in Lean on the implementation's arrays after every operation; brute-force oracle on "
-              "the real code."),
-        note=("trusted: Lean kernel + Mathlib, axioms propext/Classical.choice/Quot.sound; exact-real semantics of box "
-              "coordinates (only min/max/≤/-/* are used; min/max/≤ are exact in floats); insertLeaf_refines is checked at "
-              "run time, not proved; correspondence harness (sampling + corpus)."),
-        technique="Lean 4 proof on hand-written model + correspondence (exact state equality, Lean-run wfCheck on impl arrays)",
-        design="§7 C05"),
-}
+import importlib
+import sys
+sys.path.insert(0, HERE)
+
+
+def load_checks():
+    """each harness/props/cXX.py carries MANIFEST = dict(text=, note=, technique=, design=)"""
+    checks = {}
+    for f in sorted(os.listdir(os.path.join(HERE, "props"))):
+        if f.startswith("c") and f.endswith(".py") and f[1:3].isdigit():
+            mod = importlib.import_module("props." + f[:-3])
+            if getattr(mod, "MANIFEST", None):
+                checks[f[:-3].upper()] = mod.MANIFEST
+    return checks
+
+
+CHECKS = load_checks()
 
 NOT_APPLICABLE = []
 
@@ -39,6 +43,13 @@ def main():
         })
     claimed = set(CHECKS)
     na = [x for x in NOT_APPLICABLE if x["property_id"] not in claimed]
+    listed = {x["property_id"] for x in na}
+    for line in open(os.path.join(VERIF, "properties.jsonl")):
+        pid = json.loads(line)["id"]
+        if pid not in claimed and pid not in listed:
+            na.append({"property_id": pid,
+                       "reason": "no check registered yet (framework under construction; the technique applies, "
+                                 "see DESIGN.md §7) — not a claim that the property is out of reach"})
     m = {
         "version": 1,
         "setup_cmd": "cd lean && lake build",
